@@ -176,6 +176,51 @@ Proof.
     destruct (negb (trailer_owned c h)) eqn:E; cbn [filter]; rewrite ?E, IH; reflexivity.
 Qed.
 
+(** … and toward an HTTP/2 backend (HTTP/1.1 or HTTP/2 client): every field of the
+    trailer block the H2 converter writes is the lower-cased copy of a client
+    trailer field that is NOT proxy-owned (attribution names and the correlation
+    header, in any case), is not connection-specific and has a lower-case name. *)
+Theorem trailers_toward_h2_backend : forall c ts x, In x (h2_filter (edit_trailers c ts)) ->
+  (exists h, In h ts /\ trailer_owned c h = false /\ x = (lower_name (fst h), snd h)) /\
+  conn_specific (fst x) = false /\ forallb (fun b => negb (is_upper b)) (fst x) = true.
+Proof.
+  intros c ts x H. split.
+  - rewrite h2_filter_fidelity in H. apply in_map_iff in H. destruct H as (h & Hx & Hin).
+    apply filter_In in Hin. destruct Hin as [Hin _]. unfold edit_trailers in Hin. apply filter_In in Hin.
+    destruct Hin as [Hin Ho]. exists h. repeat split; [exact Hin| |symmetry; exact Hx].
+    destruct (trailer_owned c h); [discriminate Ho|reflexivity].
+  - destruct (h2_connection_specific_never_cross _ x H) as (Hc & Hl & _). split; assumption.
+Qed.
+
+(** [:scheme] toward an HTTP/2 backend is the scheme of the listener the request
+    arrived on — the same value as X-Forwarded-Proto / Forwarded's [proto=] when
+    sozu writes them — whatever scheme the client claimed. *)
+Theorem h2_scheme_is_the_listeners : forall c m p a s1 s2,
+  h2_pseudo c m p a s1 = h2_pseudo c m p a s2 /\
+  map snd (filter (named (B ":scheme")) (h2_pseudo c m p a s1)) = [proto c] /\
+  map fst (h2_pseudo c m p a s1) = [B ":method"; B ":scheme"; B ":path"; B ":authority"].
+Proof. intros. repeat split; destruct (c_https c); reflexivity. Qed.
+
+(** Header fields toward an HTTP/2 peer, over any number of write passes and any
+    way the fields of a group arrive (an HTTP/1.1 trailer section can come in
+    several reads): the HPACK encoder has indexed exactly what the peer received
+    (the two compression contexts stay in step), and no field is lost: what the
+    peer received plus what is still queued is everything that was offered. *)
+Theorem converter_keeps_hpack_in_step : forall ps s,
+  c_tbl s = c_wire s -> c_tbl (fold_left conv_step ps s) = c_wire (fold_left conv_step ps s).
+Proof.
+  induction ps as [|p ps IH]; intros s H; [exact H|]. cbn [fold_left]. apply IH.
+  unfold conv_step. destruct (snd p); cbn [c_tbl c_wire]; [rewrite H; reflexivity|exact H].
+Qed.
+
+Theorem converter_loses_no_field : forall ps s,
+  c_wire (fold_left conv_step ps s) ++ c_q (fold_left conv_step ps s) =
+  c_wire s ++ c_q s ++ flat_map fst ps.
+Proof.
+  induction ps as [|p ps IH]; intros s; cbn [fold_left flat_map]; [rewrite app_nil_r; reflexivity|].
+  rewrite IH. unfold conv_step. destruct (snd p); cbn [c_wire c_q]; rewrite ?app_nil_l, ?app_assoc_reverse; reflexivity.
+Qed.
+
 (** the block-level function run by the correspondence check is [edit_request] on
     the header blocks, and the H1 serialiser writes those blocks in order *)
 Theorem edit_items_is_edit_request : forall c l,
@@ -210,6 +255,22 @@ Proof. intros n r a hs. cbn [after_attempts]. apply after_attempts_later. Qed.
 
 (** what the unfixed router did (the policy applied per attempt): after one
     retry an appended header is on the request twice *)
+Example trailers_toward_h2_nonvacuous :
+  h2_filter (edit_trailers ex_ctx [(B "X-T", B "1"); (B "SOZU-ID", B "FORGED"); (B "X-Forwarded-For", B "6.6.6.6");
+                                   (B "Connection", B "close"); (B "Grpc-Status", B "0")]) =
+  [(B "x-t", B "1"); (B "grpc-status", B "0")].
+Proof. vm_compute. reflexivity. Qed.
+
+(** the unfixed converter on a trailer section in two reads: the first field is indexed
+    but never sent; the next block's references are off by one entry at the peer *)
+Example converter_unfixed_out_of_step :
+  let ps := [([(B "x-t", B "6.6.6.6")], false); ([(B "x-t", B "0")], true)] in
+  let u := fold_left conv_step_unfixed ps (mkc [] [] []) in
+  let f := fold_left conv_step ps (mkc [] [] []) in
+  c_tbl u = [(B "x-t", B "6.6.6.6"); (B "x-t", B "0")] /\ c_wire u = [(B "x-t", B "0")] /\
+  c_tbl f = c_wire f /\ c_wire f = [(B "x-t", B "6.6.6.6"); (B "x-t", B "0")].
+Proof. vm_compute. repeat split; reflexivity. Qed.
+
 Example policy_per_attempt_duplicates :
   let r := mkrw None None [(B "X-Op", B "1")] in
   apply_rw r (B "x") (apply_rw r (B "x") [(B "Accept", B "a")]) =
